@@ -8,7 +8,8 @@ use crate::mc::Limits;
 
 pub fn model(tier: Tier, world: &str) -> Hist {
     let (w, s0) = world_by_name(if world.is_empty() { "A" } else { world });
-    let mut roots = standard_roots(&w, &s0, false);
+    // the forged fee buckets of R4 are of no interest here; the wipe-out root R3w is
+    let mut roots: Vec<_> = standard_roots(&w, &s0, true).into_iter().filter(|(n, _)| n != "R4").collect();
     roots.extend(tokenless_roots(&w, &s0));
     roots.extend(killed_root(&w, &s0));
     let mut alpha = Alphabet::standard(vec![0, 1], vec![0, 1]);
